@@ -769,16 +769,18 @@ class Pervaporation:
                 component_index=1,
             )
 
+        initial_weight_fraction = initial_feed_composition.to_weight(self.mixture).first
+
         if initial_permeances is None:
             first_component_permeance = Permeance(
                 value=pervaporation_function_first(
-                    initial_feed_composition.first, feed_temperature
+                    initial_weight_fraction, feed_temperature
                 )
             )
 
             second_component_permeance = Permeance(
                 value=pervaporation_function_second(
-                    initial_feed_composition.first, feed_temperature
+                    initial_weight_fraction, feed_temperature
                 )
             )
 
@@ -796,13 +798,13 @@ class Pervaporation:
         facilitation_rate_first = (
             first_component_permeance.value
             / pervaporation_function_first(
-                x=initial_feed_composition.first, t=feed_temperature
+                x=initial_weight_fraction, t=feed_temperature
             )
         )
         facilitation_rate_second = (
             second_component_permeance.value
             / pervaporation_function_second(
-                x=initial_feed_composition.first, t=feed_temperature
+                x=initial_weight_fraction, t=feed_temperature
             )
         )
 
@@ -1042,14 +1044,14 @@ class Pervaporation:
         facilitation_rate_first = (
             first_component_permeance.value
             / pervaporation_function_first(
-                x=conditions.initial_feed_composition.first,
+                x=feed_composition[0].first,
                 t=conditions.initial_feed_temperature,
             )
         )
         facilitation_rate_second = (
             second_component_permeance.value
             / pervaporation_function_second(
-                x=conditions.initial_feed_composition.first,
+                x=feed_composition[0].first,
                 t=conditions.initial_feed_temperature,
             )
         )
@@ -1357,14 +1359,14 @@ class Pervaporation:
         facilitation_rate_first = (
             first_component_permeance.value
             / pervaporation_function_first(
-                x=conditions.initial_feed_composition.first,
+                x=feed_composition[0].first,
                 t=conditions.initial_feed_temperature,
             )
         )
         facilitation_rate_second = (
             second_component_permeance.value
             / pervaporation_function_second(
-                x=conditions.initial_feed_composition.first,
+                x=feed_composition[0].first,
                 t=conditions.initial_feed_temperature,
             )
         )
